@@ -685,3 +685,48 @@ def run(ctx) -> None:  # noqa: F811
     from ..rules import deferred
 
     deferred.run(ctx, lambda: _axis_order(ctx), _inner_run_c31_axisorder)
+
+
+# ---- added after the seeded change C31-r7seed4: the legal seed 0 is a seed
+_inner_run_c31_r7 = run
+
+
+def _optional_numbers(f) -> set:
+    """parameters annotated as an optional number (int / float together with None / Optional)"""
+    import ast as _ast
+
+    out = set()
+    a = f.node.args
+    for x in a.posonlyargs + a.args + a.kwonlyargs:
+        if x.annotation is None:
+            continue
+        ann = x.annotation
+        if isinstance(ann, _ast.Constant) and isinstance(ann.value, str):
+            try:
+                ann = _ast.parse(ann.value, mode="eval").body
+            except SyntaxError:
+                continue
+        names = {n.id for n in _ast.walk(ann) if isinstance(n, _ast.Name)} | {
+            n.attr for n in _ast.walk(ann) if isinstance(n, _ast.Attribute)}
+        has_none = "Optional" in names or any(isinstance(n, _ast.Constant) and n.value is None for n in _ast.walk(ann))
+        if has_none and names & {"int", "float"}:
+            out.add(x.arg)
+    return out
+
+
+def run(ctx) -> None:  # noqa: F811
+    from ..rules import nonedefault
+
+    ctx.rule("R-SEEDGIVEN", "in abtem/noise.py a parameter annotated as an optional number (int / float with None: seeds, "
+             "samples) is never read as a truth value (`not seeds`, `seeds or ...`, `if samples:`): 0 is a legal seed, "
+             "and treating it like \"no seed\" makes the generator draw fresh entropy on every application, so the noisy "
+             "result for that fixed seed is not reproducible.  The parameters are found from their annotations")
+    n = 0
+    for f in ctx.repo.all_functions():
+        if f.module.name != "abtem.noise":
+            continue
+        names = _optional_numbers(f)
+        if names:
+            n += nonedefault.check(ctx, "R-SEEDGIVEN", f, names, "number")
+    ctx.require(n >= 1, "R-SEEDGIVEN: no optional numeric parameter found in abtem/noise.py")
+    _inner_run_c31_r7(ctx)
